@@ -58,6 +58,8 @@ Section Sites.
   Qed.
   Lemma tp_new_no_panic (a b c : V) (n : nat) : forall s, tp_new a b c n <> Panic s.
   Proof. intros s. unfold tp_new. pose proof (tri_new_no_panic a b c) as H. destruct (tri_new a b c) as [t| |s']; cbn [rbind]; try discriminate. intros E; inversion E; subst. eapply H; reflexivity. Qed.
+  Lemma np_tri_new (a b c : V) : np_res okb (tri_new a b c).
+  Proof. intros s H. exfalso. eapply tri_new_no_panic; exact H. Qed.
   Lemma np_tp_new (a b c : V) (n : nat) : np_res okb (tp_new a b c n).
   Proof. intros s H. exfalso. eapply tp_new_no_panic; exact H. Qed.
   Lemma np_push (a b c : V) (la : nat) : NP okb (mesh_push a b c la).
@@ -93,6 +95,7 @@ Section Sites.
     | |- np_res _ (edge_of_points _ _ _ _) => apply np_edge_of_points; assumption
     | |- np_res _ (edge_of_points_err _ _ _) => apply np_edge_of_points_err
     | |- np_res _ (tp_new _ _ _ _) => apply np_tp_new
+    | |- np_res _ (tri_new _ _ _) => apply np_tri_new
     | |- NP _ (if ?b then _ else _) => destruct b
     | |- np_res _ (if ?b then _ else _) => destruct b
     | |- NP _ (match ?x with _ => _ end) => destruct x eqn:?
@@ -151,8 +154,10 @@ Section Sites.
     all: try (match goal with H : match tri_get_edge_index_from_segment ?t ?s with _ => _ end = Ok _ |- np_res _ (edge_from_i _) =>
       destruct (tri_get_edge_index_from_segment t s) eqn:E; inversion H; subst; apply np_edge_from_lt; eapply edge_index_lt; eassumption end).
   Qed.
+  Lemma np_precheck (s : Seg K) (p : V) (i : nat) : NP okb (split_precheck s p i).
+  Proof. unfold split_precheck. repeat np_step. Qed.
   Lemma np_split_edge (i : nat) (e : Edge) (p : V) : NP okb (split_edge i e p).
-  Proof. unfold split_edge. repeat first [apply np_mark | apply np_hemisphere | np_step]. Qed.
+  Proof. unfold split_edge. repeat first [apply np_mark | apply np_hemisphere | apply np_precheck | np_step]. Qed.
   Lemma np_split_triangle (i : nat) (p : V) : NP okb (split_triangle i p).
   Proof. unfold split_triangle. repeat first [apply np_mark | np_step]. Qed.
 
